@@ -21,7 +21,7 @@ func extraCommand(cmd string, tab *SymTab, rd *os.File, bw *bufio.Writer, worker
 	case "misc":
 		cmdMisc(tab, bw, seed)
 	case "determinism":
-		cmdDeterminism(tab, bw, n, depth, seed)
+		cmdDeterminism(tab, rd, bw, n, depth, seed)
 	case "detchild":
 		cmdDetChild(tab, rd, bw)
 	case "reimport":
